@@ -197,13 +197,18 @@ impl Disassemble for dr::Module {
 fn disas_constant(inst: &dr::Instruction, type_tracker: &tracker::TypeTracker) -> String {
     debug_assert_eq!(inst.class.opcode, spirv::Op::Constant);
     debug_assert_eq!(inst.operands.len(), 1);
-    let literal_type = type_tracker.resolve(inst.result_type.unwrap());
+    let literal_type = match type_tracker.resolve(inst.result_type.unwrap()) {
+        Some(literal_type) => literal_type,
+        // The result type is not a known integer or float type declaration:
+        // show the raw bit pattern.
+        None => return inst.disassemble(),
+    };
     match inst.operands[0] {
         LiteralBit32(value) => disas_instruction(inst, " ", |_| {
-            disas_literal_bit_operand(value, &literal_type.unwrap())
+            disas_literal_bit_operand(value, &literal_type)
         }),
         LiteralBit64(value) => disas_instruction(inst, " ", |_| {
-            disas_literal_bit_operand(value, &literal_type.unwrap())
+            disas_literal_bit_operand(value, &literal_type)
         }),
         _ => inst.disassemble(),
     }
